@@ -2,6 +2,7 @@
 
 from ..absint import Interp, Lin, Lst, PyFunc, PyRaise, Tup, label_var
 from ..index import Undecided
+from ..absint import NeedSplit
 from ..tables import default_overrides
 from ..tables import Atoms, Outcome, TableRun, compare_outcomes, num_equal, run_code, run_spec, run_states, show
 from . import common
@@ -92,6 +93,7 @@ def measures_table(rep, n):
         at.rel("0", "<=", "x%d" % i)
     tr = TableRun(rep, "M-measures", fn.short, fn.loc)
     names = ["mean", "max", "min", "range", "variance", "deviation"]
+    WINDOWS = (None, 3, 5)  # 5 on three values: the padded and the unpadded filter differ in the middle element
 
     def rows(st):
         out = []
@@ -103,7 +105,7 @@ def measures_table(rep, n):
                 unvoiced[list(x.coef)[0]] = False
             else:
                 # 0 < x < 1: not a pitch value (Hz); int(x) != 0 and x != 0 differ there
-                return [((w, z), True, "dontcare", None) for w in (None, 3) for z in (False, True)]
+                return [((w, z), True, "dontcare", None) for w in WINDOWS for z in (False, True)]
 
         def to_int(I_, a, k):
             v = a[0]
@@ -148,7 +150,7 @@ def measures_table(rep, n):
                     unknown = "%s: %s" % (nm, verdict[1])
             return ("unknown", unknown) if unknown else ("same", "")
 
-        for window in (None, 3):
+        for window in WINDOWS:
             for drop_zero in (False, True):
                 mode = (window, drop_zero)
                 I = Interp(idx, st, overrides=default_overrides())
@@ -184,7 +186,7 @@ def measures_table(rep, n):
         return out
 
     run_states(at, rows, tr)
-    tr.done("%d generic pitch values (0 = unvoiced, otherwise >= 1) x zero removal x median window (none, 3)" % n)
+    tr.done("%d generic pitch values (0 = unvoiced, otherwise >= 1) x zero removal x median window (none, 3, 5)" % n)
 
 
 def pitch_errors_table(rep, n=3):
@@ -267,7 +269,7 @@ def _sample_sd(xs):
     return mean, var
 
 
-def znorm_table(rep, n, fn_name="utilities.my_math:znormalizeData"):
+def znorm_table(rep, n, fn_name="utilities.my_math:znormalizeData", zero_filter=False):
     """z-normalisation of n generic values (every weak order that is not constant): the result has n elements, they
     sum to zero, their sample variance is 1, and differences keep their sign (rank order)."""
     from fractions import Fraction
@@ -278,6 +280,11 @@ def znorm_table(rep, n, fn_name="utilities.my_math:znormalizeData"):
     rep.functions.add(fn.qual)
     at = Atoms()
     xs = [at.var("x%d" % i) for i in range(1, n + 1)]
+    if zero_filter:
+        # every value positive: there is nothing to filter, the result must be the plain z-normalisation
+        at.const(0, "0")
+        for i in range(1, n + 1):
+            at.rel("0", "<", "x%d" % i)
     tr = TableRun(rep, "M-znorm", fn.short, fn.loc)
 
     def rows(st):
@@ -287,7 +294,7 @@ def znorm_table(rep, n, fn_name="utilities.my_math:znormalizeData"):
         try:
             if speaker:
                 rows_ = Lst([Tup([Lin.var("t%d" % i), x, label_var("r%d" % i)]) for i, x in enumerate(xs, 1)])
-                got = I.call_function(fn, [rows_, Lin.num(1), False], {})
+                got = I.call_function(fn, [rows_, Lin.num(1), zero_filter], {})
                 got_rows = [I.iterate(r) for r in I.iterate(got)]
                 if len(got_rows) != n or any(len(r) != 3 for r in got_rows):
                     return [("z", False, "%d rows of widths %s returned for %d rows of width 3" % (len(got_rows), [len(r) for r in got_rows], n), None)]
@@ -356,7 +363,104 @@ def znorm_table(rep, n, fn_name="utilities.my_math:znormalizeData"):
         return [("z", True, "", None)]
 
     run_states(at, rows, tr)
-    tr.done("%d generic values, every non-constant weak order%s" % (n, " (column 1 of 3-column rows, filterZeroValues=False)" if speaker else ""))
+    tr.done("%d generic values, every non-constant weak order%s" % (n, (" (column 1 of 3-column rows, filterZeroValues=%s%s)" % (zero_filter, ", all values positive" if zero_filter else "")) if speaker else ""))
+
+
+def znorm_window_table(rep, n, windows=(3,)):
+    """znormWindowFilter on n generic values: element i is the z-score of element i within its window (the window of
+    the median filter: floor(window/2) neighbours on either side, edge values repeated when padding is on, the element
+    left unchanged near the edges when it is off).  With filterZeroValues the non-positive values stay where they are,
+    as 0.0, and the windows run over the remaining values only."""
+    from fractions import Fraction
+
+    idx = common.ctx()
+    fn = idx.get("utilities.my_math:znormWindowFilter")
+    rep.functions.add(fn.qual)
+    at = Atoms()
+    at.const(0, "0")
+    xs = [at.var("x%d" % i) for i in range(1, n + 1)]
+    tr = TableRun(rep, "M-znorm-window", fn.short, fn.loc)
+
+    def zscores(vals, w, pad):
+        """-> list of Lin, or None when some window is constant (deviation 0: nothing is promised)"""
+        off = w // 2
+        m = len(vals)
+        out = []
+        for i in range(m):
+            if pad:
+                win = [vals[min(max(i + j, 0), m - 1)] for j in range(-off, off + 1)]
+            elif i - off >= 0 and i + off < m:
+                win = [vals[i + j] for j in range(-off, off + 1)]
+            else:
+                out.append(vals[i])
+                continue
+            if len(win) < 2:
+                return None
+            mean, var = _sample_sd(win)
+            out.append((win, mean, var))
+        return out
+
+    def rows(st):
+        out = []
+        for w in windows:
+            for pad in (True, False):
+                for fz in (False, True):
+                    mode = (w, pad, fz)
+                    pos = [st.signs(x) == frozenset([1]) for x in xs]
+                    if fz and not all(len(st.signs(x)) == 1 for x in xs):
+                        out.append((mode, False, "", NeedSplit(xs[[len(st.signs(x)) == 1 for x in xs].index(False)], "sign of a value")))
+                        continue
+                    kept = [x for x, p_ in zip(xs, pos) if p_] if fz else list(xs)
+                    spec = zscores(kept, w, pad) if kept else []
+                    I = Interp(idx, st, overrides=default_overrides())
+                    try:
+                        got = I.call_function(fn, [Lst(list(xs)), Lin.num(w), pad, fz], {})
+                        items = [I.num(v) for v in I.iterate(got)]
+                    except PyRaise as e:
+                        # a constant window has deviation 0; fewer than two values have none
+                        const_win = spec is None or any(isinstance(z, tuple) and all(st.signs(v - z[0][0]) == frozenset([0]) for v in z[0]) for z in spec)
+                        out.append((mode, True, "dontcare", None) if const_win else (mode, False, "raises %s although every window has a positive deviation" % e.name, None))
+                        continue
+                    except Undecided as e:
+                        out.append((mode, False, "", e if type(e).__name__ == "NeedSplit" else str(e)))
+                        continue
+                    if spec is None or any(isinstance(z, tuple) and all(st.signs(v - z[0][0]) == frozenset([0]) for v in z[0]) for z in spec):
+                        out.append((mode, True, "dontcare", None))
+                        continue
+                    want = []
+                    it = iter(spec)
+                    for x, p_ in zip(xs, pos):
+                        if fz and not p_:
+                            want.append(Lin.num(0))
+                            continue
+                        z = next(it)
+                        if isinstance(z, tuple):
+                            win, mean, var = z
+                            centre = win[len(win) // 2]
+                            want.append((centre - mean).over(Lin.apply("sqrt", var)))
+                        else:
+                            want.append(z)
+                    if len(items) != len(want):
+                        out.append((mode, False, "%d values returned for %d" % (len(items), len(want)), None))
+                        continue
+                    problem = unknown = None
+                    for k, (g, wv) in enumerate(zip(items, want)):
+                        v = terms.decide(st, xs, g, wv)
+                        if v[0] == "differ":
+                            problem = "element %d is %r, expected %r; e.g. with %s it is %.6g, not %.6g" % (k, g, wv, _env(v[1]), v[2], v[3])
+                            break
+                        if v[0] == "unknown":
+                            unknown = unknown or "element %d: %s" % (k, v[1])
+                    if problem:
+                        out.append((mode, False, problem, None))
+                    elif unknown:
+                        out.append((mode, False, "", unknown))
+                    else:
+                        out.append((mode, True, "", None))
+        return out
+
+    run_states(at, rows, tr)
+    tr.done("%d generic values around 0 x window %s x padding x filterZeroValues" % (n, "/".join(map(str, windows))))
 
 
 def rms_table(rep, n):
@@ -512,11 +616,12 @@ def rows_table(rep):
 def run(rep, tier):
     rep.rule("M-median", "abstract interpretation of medianFilter/_stepFilter on series of generic values (every weak order, lengths 0-4, thorough 5) for window sizes 0-8 and both padding modes against the textbook definition; result has the input's length")
     rep.rule("M-rows", "filterTimeSeriesData keeps the number and order of rows and every column except the filtered one")
-    rep.rule("M-measures", "abstract interpretation of getPitchMeasures on 0-3 generic pitch values (0 = unvoiced, otherwise >= 1; thorough 4) with and without zero removal, without and with a median window of 3: the six results are, as polynomials over the values (squares and products expanded, the root an uninterpreted function of its argument), the mean, max, min, max - min, population variance and its root of the kept values; six zeros when none is kept; with both options: median filter (edge padding) over the whole track first, zero removal second")
+    rep.rule("M-measures", "abstract interpretation of getPitchMeasures on 0-3 generic pitch values (0 = unvoiced, otherwise >= 1; thorough 4) with and without zero removal, without and with a median window of 3 or 5: the six results are, as polynomials over the values (squares and products expanded, the root an uninterpreted function of its argument), the mean, max, min, max - min, population variance and its root of the kept values; six zeros when none is kept; with both options: median filter (edge padding) over the whole track first, zero removal second")
     rep.rule("M-jumps", "abstract interpretation of detectPitchErrors on 3 generic (time, pitch) rows x thresholds 0.5, 0.7, 1: a row is reported, at its own time and in order, iff the previous pitch is below threshold x current or above current / threshold (jumps of exactly the ratio: either answer); thresholds outside [0, 1] are rejected")
-    rep.rule("M-znorm", "abstract interpretation of znormalizeData and znormalizeSpeakerData (filterZeroValues=False) on 2-3 generic values (thorough 4), every non-constant weak order: n results; their sum is 0 as a polynomial; their sample variance times deviation^2 equals deviation^2 (sqrt and reciprocal are uninterpreted functions with the rewrite rules sqrt(p)*sqrt(p) = p and t*(1/t) = 1); (z_i - z_j) * deviation = x_i - x_j (rank order).  Where the forms differ a refutation is an assignment of the values, consistent with the case, at which the two closed-form expressions differ; forms that differ but agree at every sample are reported as undecided, never as a violation")
+    rep.rule("M-znorm", "abstract interpretation of znormalizeData and znormalizeSpeakerData (filterZeroValues=False; and True on all-positive values, where there is nothing to filter) on 2-3 generic values (thorough 4), every non-constant weak order: n results; their sum is 0 as a polynomial; their sample variance times deviation^2 equals deviation^2 (sqrt and reciprocal are uninterpreted functions with the rewrite rules sqrt(p)*sqrt(p) = p and t*(1/t) = 1); (z_i - z_j) * deviation = x_i - x_j (rank order).  Where the forms differ a refutation is an assignment of the values, consistent with the case, at which the two closed-form expressions differ; forms that differ but agree at every sample are reported as undecided, never as a violation")
     rep.rule("M-rms", "abstract interpretation of rms on 1-3 generic values: the result is sqrt(mean of squares) as an expression")
-    rep.not_decided.append("znormalizeSpeakerData with filterZeroValues=True and znormWindowFilter (the property does not define what zero filtering means for them)")
+    rep.rule("M-znorm-window", "abstract interpretation of znormWindowFilter on 3 (thorough 4) generic values around 0, window 3 (thorough also 5), both padding modes, with and without zero filtering: element i is (x_i - mean(window_i)) / deviation(window_i) as a term, windows as for the median filter; with zero filtering the non-positive values come back as 0.0 at their own positions and the windows run over the remaining values (states with a constant window: nothing promised)")
+    rep.not_decided.append("znormalizeSpeakerData with filterZeroValues=True on series containing non-positive values (docstring and code disagree on whether zeros enter the mean; the property does not say)")
     rep.rule("L-listing", "interpretation of loadTimeSeriesData on exemplar listings in a virtual file (header / no header, undefined markers in each column, blank lines, LF / CRLF) x undefinedValue None, -1.5, 0.0, a symbolic number: every row comes back in order as the doubles its numerals denote, rows with an undefined value skipped or substituted as requested (exemplar-based: a finite sample of listings, not every listing)")
     for n in ([0, 1, 2, 3, 4] if tier == "quick" else [0, 1, 2, 3, 4, 5]):
         median_table(rep, n, range(0, 9))
@@ -527,6 +632,9 @@ def run(rep, tier):
     for n in ([2, 3] if tier == "quick" else [2, 3, 4]):
         znorm_table(rep, n)
         znorm_table(rep, n, "utilities.my_math:znormalizeSpeakerData")
+        znorm_table(rep, n, "utilities.my_math:znormalizeSpeakerData", zero_filter=True)
     for n in (1, 2, 3):
         rms_table(rep, n)
+    for n in ([3] if tier == "quick" else [3, 4]):
+        znorm_window_table(rep, n, (3,) if n == 3 else (3, 5))
     listing_table(rep)
